@@ -417,8 +417,10 @@ def rnn_case(rnd, cls):
     st = L.LSTM(units, use_bias=usebias, implementation=impl, activation=lay.cell.activation,
                 recurrent_activation=lay.cell.recurrent_activation, unit_forget_bias=False, **seqkw)
   else:
-    lay = QGRU(units, implementation=impl, reset_after=False, **kw)
-    st = L.GRU(units, use_bias=usebias, implementation=impl, reset_after=False, activation=lay.cell.activation,
+    # reset_after=True is only executable without a bias in this TensorFlow (the bias path needs array_ops.unstack)
+    ra = (not usebias) and rnd.random() < 0.5
+    lay = QGRU(units, implementation=impl, reset_after=ra, **kw)
+    st = L.GRU(units, use_bias=usebias, implementation=impl, reset_after=ra, activation=lay.cell.activation,
                recurrent_activation=lay.cell.recurrent_activation, **seqkw)
   x = np.array([rnd.randint(-4, 4) for _ in range(steps * feat)], dtype=np.float32).reshape((1, steps, feat)) * 2.0 ** SX
   lay.build((None, steps, feat))
